@@ -162,8 +162,12 @@ def _cost(prog, rep):
         expected[(name, "hyphen")] = (frozenset(conds + [H]), cost + poly(pen("hyphen_penalty")))
         expected[(name, "plain")] = (frozenset(conds + [N(H)]), cost)
     got = []
+    # a comparison of the looked-up line width with a constant only selects between the arms of `max(width, 1.0)`
+    # written as a conditional: it is part of the value T, not a case of the model
+    raw_lw = T[2][0]
+    value_guard = lambda nf: bool(nf[1].atoms()) and nf[1].atoms() <= {raw_lw}
     for rp in cm.returns:
-        nfs = frozenset(fact_nf(f) for f in rp.facts if f[0][0] == "cmp")
+        nfs = frozenset(nf for nf in (fact_nf(f) for f in rp.facts if f[0][0] == "cmp") if not value_guard(nf))
         got.append((nfs, poly(rp.ret), rp))
     show = lambda p: p.show(D)
     matched = set()
@@ -207,8 +211,18 @@ def _line_numbers(prog, rep):
     for a, b in lm.lp["exits"]:
         conds.append(prog.simp(sg.switch_value(a), gb))
     lenc = lambda f: ("call", "Vec::len", (("call", f, (cell,)),))
-    okc = len(conds) == 1 and conds[0][0] == "bin" and conds[0][1] == "Lt" and conds[0][2] in (lenc("RefCell::borrow_mut"), lenc("RefCell::borrow")) \
-        and poly(conds[0][3]) == poly(I) + poly(("int", 1))
+    # every pass round the loop runs under len < i + 1, every way out under its negation (any spelling of the test)
+    from ..paths import loop_system as _ls
+    from ..poly import fact_nf as _fnf, negate_cmp as _neg
+    wants = [GT0(poly(I) + poly(("int", 1)) - poly(lenc(f))) for f in ("RefCell::borrow_mut", "RefCell::borrow")]
+    trs = _ls(prog, gb, lm, [], [])
+    okc = bool(trs)
+    for tr in trs:
+        nfs_ = {_fnf(f) for f in tr.facts if f[0][0] == "cmp"}
+        if tr.kind == "back":
+            okc = okc and any(w in nfs_ for w in wants)
+        else:
+            okc = okc and any(_neg(w) in nfs_ for w in wants)
     r.check(okc, "fill-until", "the cache is filled while len < i + 1", D(conds[0]) if conds else "", "the fill loop runs while %s; expected "
             "cache.len() < i + 1" % [D(c) for c in conds])
     pushes = [(b, [prog.simp(a, gb) for a in sg.call_args(b)]) for b, t, c in gb.calls() if c.name == "Vec::push"]
